@@ -60,6 +60,112 @@ fn classes(ir: &[Elem], obs: &mut Obs) {
     );
 }
 
+/// drop empty items (they cannot be created through attribute operations)
+fn without_empty_items(elems: &[Elem]) -> Vec<Elem> {
+    elems
+        .iter()
+        .map(|e| match &e.v {
+            Val::Seq { items, explicit } => Elem {
+                g: e.g,
+                e: e.e,
+                vr: e.vr.clone(),
+                v: Val::Seq {
+                    items: items.iter().map(|i| Item { elems: without_empty_items(&i.elems), explicit: false }).filter(|i| !i.elems.is_empty()).collect(),
+                    explicit: *explicit,
+                },
+            },
+            _ => e.clone(),
+        })
+        .collect()
+}
+
+/// Build the same data set through the attribute operation API (constructive nested selectors), which is
+/// how applications assemble objects: sequences start as `DataSetSequence::empty()` and grow item by item.
+fn build_via_ops(obj: &mut InMemDicomObject, elems: &[Elem], path: &[((u16, u16), u32)]) -> Result<(), String> {
+    use crate::opsir::{ActIr, OpIr};
+    use dicom_core::ops::ApplyOp;
+    for e in elems {
+        match &e.v {
+            Val::Seq { items, .. } => {
+                if items.is_empty() {
+                    obj.apply(OpIr { path: path.to_vec(), leaf: e.tag(), act: ActIr::Set(Val::Empty) }.to_op()).map_err(|x| x.to_string())?;
+                    obj.apply(OpIr { path: path.to_vec(), leaf: e.tag(), act: ActIr::SetVr("SQ".into()) }.to_op()).map_err(|x| x.to_string())?;
+                }
+                for (i, it) in items.iter().enumerate() {
+                    let mut p = path.to_vec();
+                    p.push((e.tag(), i as u32));
+                    build_via_ops(obj, &it.elems, &p)?;
+                }
+            }
+            Val::Pix { .. } => {}
+            v => {
+                obj.apply(OpIr { path: path.to_vec(), leaf: e.tag(), act: ActIr::Set(v.clone()) }.to_op()).map_err(|x| x.to_string())?;
+                obj.apply(OpIr { path: path.to_vec(), leaf: e.tag(), act: ActIr::SetVr(e.vr.clone()) }.to_op()).map_err(|x| x.to_string())?;
+            }
+        }
+    }
+    Ok(())
+}
+
+/// sequences reachable by constructive operations: the tag's dictionary VR is SQ or the tag is unknown
+fn ops_buildable(elems: &[Elem]) -> bool {
+    elems.iter().all(|e| match &e.v {
+        Val::Seq { items, .. } => {
+            let dv = crate::gen::dict().implicit_vr(e.tag());
+            (dv == "SQ" || dv == "UN") && items.iter().all(|i| ops_buildable(&i.elems))
+        }
+        _ => true,
+    })
+}
+
+fn check_roundtrip_via_ops(c: &Case, obs: &mut Obs) {
+    let ir = without_empty_items(&prepare(&c.ds));
+    if !ops_buildable(&ir) {
+        obs.skip("a sequence tag that constructive operations cannot create");
+        return;
+    }
+    let mut has_seq_items = false;
+    ds::walk(&ir, &mut |e, _| if let Val::Seq { items, .. } = &e.v { has_seq_items |= !items.is_empty() }, 0);
+    obs.nontrivial = has_seq_items;
+    let mut obj = InMemDicomObject::new_empty();
+    if let Err(e) = build_via_ops(&mut obj, &ir, &[]) {
+        obs.fail("C23:cannot build the data set through attribute operations", e);
+        return;
+    }
+    // sequences created under an unknown tag carry VR UN until told otherwise: fix the VR as an application would
+    fn fix_seq_vr(obj: &mut InMemDicomObject, elems: &[Elem], path: &[((u16, u16), u32)]) {
+        use crate::opsir::{ActIr, OpIr};
+        use dicom_core::ops::ApplyOp;
+        for e in elems {
+            if let Val::Seq { items, .. } = &e.v {
+                for (i, it) in items.iter().enumerate() {
+                    let mut p = path.to_vec();
+                    p.push((e.tag(), i as u32));
+                    fix_seq_vr(obj, &it.elems, &p);
+                }
+                let _ = obj.apply(OpIr { path: path.to_vec(), leaf: e.tag(), act: ActIr::SetVr("SQ".into()) }.to_op());
+            }
+        }
+    }
+    fix_seq_vr(&mut obj, &ir, &[]);
+    let txt = match dicom_json::to_string(&obj) {
+        Ok(t) => t,
+        Err(e) => {
+            obs.fail("C23:serialisation fails", e.to_string());
+            return;
+        }
+    };
+    match dicom_json::from_str::<InMemDicomObject>(&txt) {
+        Ok(back) => {
+            if let Err(m) = obj_matches(&back, &ir, Ts::ExplicitLE, LenMode::AllUndefined, "") {
+                let (k, d) = split_mm(&m);
+                obs.fail(format!("C23:JSON round trip of an object built by attribute operations differs:{k}"), format!("{d}; json {:.300}", txt));
+            }
+        }
+        Err(e) => obs.fail("C23:own output rejected by the deserialiser (object built by attribute operations)", format!("{e}; json {:.300}", txt)),
+    }
+}
+
 fn check_roundtrip(c: &Case, obs: &mut Obs) {
     let ir = prepare(&c.ds);
     obs.nontrivial = crate::props::c01::nontrivial(&ir);
@@ -204,6 +310,13 @@ pub fn run_c23(ctx: &Ctx) {
         ds_strategy,
         ctx.cases(30_000, 600_000),
         check_roundtrip,
+    );
+    ctx.run_prop(
+        "roundtrip_of_objects_built_by_operations",
+        "the same data sets assembled through the attribute operation API (nested constructive selectors: sequences start empty and grow item by item, VRs set afterwards), then serialised and deserialised; oracle as above; data sets with a sequence tag that operations cannot create are skipped and counted; non-trivial = a sequence with items",
+        || gen::dataset(DsCfg { max_depth: 3, max_top: 6, pixel_seq: false }).prop_map(|ds| Case { ds }).boxed(),
+        ctx.cases(15_000, 300_000),
+        check_roundtrip_via_ops,
     );
     ctx.run_prop(
         "any_json_never_panics",
